@@ -406,7 +406,7 @@ def gen_large(rng, thorough):
         for n in (1, 2, 3):
             for pos in range(n):          # which call gets the long answer
                 combos.append((big, n, pos))
-    combos = rng.sample(combos, 15 if thorough else 9)
+    combos = rng.sample(combos, 15 if thorough else 6)
     for big, n, pos in combos:
         order = list(range(n))
         rng.shuffle(order)
@@ -615,7 +615,7 @@ def run(ctx):
             gen_close(ctx.rng, not quick, 220 if quick else 1200),
             gen_after_gone(ctx.rng, 130 if quick else 900),
             gen_odd_frames(ctx.rng, 130 if quick else 900),
-            gen_random(ctx.rng, 260 if quick else 1500, 18 if quick else 30),
+            gen_random(ctx.rng, 200 if quick else 1500, 18 if quick else 30),
         ]
         for g in gens:
             for case in g:
